@@ -50,12 +50,28 @@
 
 #include <cstdint>
 #include <cstdio>
+#include <execinfo.h>
 #include <cstdlib>
 #include <cstring>
 #include <string>
 #include <vector>
 
 namespace vt {
+
+// ---- allocation accounting (C11): counts operator new / malloc while the library's API is executing, excluding the harness's own callbacks
+struct AllocState { long count = 0; int active = 0; int suspended = 0; int traceBudget = 0; };
+inline AllocState& allocState() { static AllocState a; return a; }
+struct NoCount { NoCount() { ++allocState().suspended; } ~NoCount() { --allocState().suspended; } };
+inline void allocTrace();
+inline void noteAlloc() { AllocState& a = allocState(); if (a.active && !a.suspended) { ++a.count; allocTrace(); } }
+
+inline void allocTrace() {
+	AllocState& a = allocState();
+	if (a.traceBudget <= 0) return;
+	--a.traceBudget; ++a.suspended;
+	void* bt[24]; const int n = backtrace(bt, 24); backtrace_symbols_fd(bt, n, 2);
+	--a.suspended;
+}
 
 // ---- descriptor emitted by gen/structures.py (independent numbering) -------------------------------
 enum Kind { K_COMPOSITE = 0, K_RESUMABLE = 1, K_SELECTABLE = 2, K_UTILITARIAN = 3, K_RANDOM = 4, K_ORTHO = 5, K_LEAF = 6 };
@@ -167,6 +183,7 @@ struct Env {
 	void error(const std::string& s) { if (!engineErrors++) engineErrorText = s; }
 
 	void rec(int state, uint8_t meth, uint8_t layer, int ctl, const void* self, int a = 0, int b = 0, int c = 0, int d = 0) {
+		NoCount nc;
 		if (recording) trace.push_back(TraceEv{(int16_t) state, meth, layer, (int16_t) ctl, a, b, c, d, self});
 	}
 
@@ -202,6 +219,7 @@ static const int RNG_MENU_SIZE = 8;
 struct ScriptRng {
 	Env* env = nullptr;
 	float next() noexcept {
+		NoCount nc;
 		int k = env->rngCalls++;
 		int alt = (env->classes & CLS_RNG) ? env->choose(-1, E_RNG, 0, RNG_MENU_SIZE, RNG_EXACT, true, 0) : 0;
 		env->rec(-1, E_RNG, 0, -1, nullptr, alt, k);
